@@ -115,4 +115,55 @@ Section L.
     destruct (alookup i _); [simpl; auto|].
     destruct (resolve _ _ _); simpl; auto.
   Qed.
+
+  (* ---------------------------------------------------------------- the JSON backend's write *)
+  Lemma snoc_neq_self : forall (d : path) n, d ++ [n] <> d.
+  Proof.
+    intros d n H. assert (L : length (d ++ [n]) = length d) by (rewrite H; reflexivity).
+    rewrite app_length in L. simpl in L. lia.
+  Qed.
+
+  Lemma snoc_inj : forall (d : path) a b, d ++ [a] = d ++ [b] -> a = b.
+  Proof. intros d a b H. apply app_inv_head in H. inversion H. reflexivity. Qed.
+
+  Lemma tmp_name_neq : forall name : str, TMPPFX ++ name <> name.
+  Proof.
+    intros name H. assert (L : length (TMPPFX ++ name) = length name) by (rewrite H; reflexivity).
+    rewrite app_length in L. simpl in L. lia.
+  Qed.
+
+  Lemma json_write_fresh : forall f d name v,
+    get f d = Some Dir ->
+    get f (d ++ [name]) = None -> get f (d ++ [TMPPFX ++ name]) = None ->
+    exists f', json_write frepr f (d ++ [name]) v = FOk f' /\
+      forall q, get f' q = if path_eqb q (d ++ [name]) then Some (File (sp_content frepr v)) else get f q.
+  Proof.
+    intros f d name v Hd Hfile Htmp.
+    unfold json_write, tmp_of. rewrite parent_snoc, last_last.
+    set (file := d ++ [name]). set (tmp := d ++ [TMPPFX ++ name]). set (c := sp_content frepr v).
+    assert (Hne : tmp <> file).
+    { unfold tmp, file. intro E. apply snoc_inj in E. exact (tmp_name_neq name E). }
+    assert (Hw : write_file f tmp c = FOk ((tmp, File c) :: remove tmp f)).
+    { unfold write_file. fold tmp in Htmp. rewrite Htmp. unfold tmp at 1. rewrite parent_snoc, Hd. reflexivity. }
+    rewrite Hw. set (f1 := (tmp, File c) :: remove tmp f).
+    assert (G1 : forall q, get f1 q = if path_eqb q tmp then Some (File c) else get f q).
+    { intro q. apply (get_write_file f tmp c f1 q Hw). }
+    assert (Ht1 : get f1 tmp = Some (File c)) by (rewrite G1, path_eqb_refl; reflexivity).
+    assert (Hd1 : get f1 (parent file) = Some Dir).
+    { unfold file. rewrite parent_snoc, G1.
+      assert (E : path_eqb d tmp = false).
+      { apply path_eqb_neq. intro E. symmetry in E. exact (snoc_neq_self d _ E). }
+      rewrite E. exact Hd. }
+    assert (Hf1 : get f1 file = None).
+    { rewrite G1. assert (E : path_eqb file tmp = false) by (apply path_eqb_neq; auto). rewrite E. exact Hfile. }
+    assert (Hr : exists f2, rename f1 tmp file = FOk f2).
+    { unfold rename. rewrite Ht1, Hd1.
+      assert (E : path_eqb tmp file = false) by (apply path_eqb_neq; auto). rewrite E, Hf1. eauto. }
+    destruct Hr as [f2 Hr]. exists f2. split; [exact Hr|].
+    intro q. rewrite (get_rename_file f1 tmp file c f2 q Ht1 Hne Hr).
+    destruct (path_eqb q file) eqn:Eq; [reflexivity|].
+    destruct (path_eqb q tmp) eqn:Et.
+    - apply path_eqb_eq in Et. subst q. symmetry. exact Htmp.
+    - rewrite G1, Et. reflexivity.
+  Qed.
 End L.
